@@ -13,6 +13,7 @@ SPEC = {
         {"name": "TestF6Scenario", "quick": 3000, "thorough": 80000, "shards_quick": 3, "shards_thorough": 16, "timeout": 2400, "mem_gb": 4},
         {"name": "TestF7Config", "quick": 2400, "thorough": 48000, "shards_quick": 2, "shards_thorough": 16, "timeout": 2400, "mem_gb": 4},
         {"name": "TestF8Parsers", "quick": 6000, "thorough": 320000, "shards_quick": 1, "shards_thorough": 16, "timeout": 2400, "mem_gb": 4},
+        {"name": "TestF10GenericJSON", "quick": 600, "thorough": 40000, "shards_quick": 4, "shards_thorough": 16, "timeout": 2400, "mem_gb": 4},
         # subprocess of the real CLI per case (about 30 ms each)
         {"name": "TestF9CLIConfig", "quick": 240, "thorough": 8000, "shards_quick": 8, "shards_thorough": 16, "timeout": 2400},
         {"name": "TestWitnesses", "quick": 1, "thorough": 1, "shards": 1, "timeout": 300, "mem_gb": 4},
@@ -25,7 +26,9 @@ SPEC = {
         {"name": "FuzzHTTPJSON", "seconds": 45}, {"name": "FuzzGrpcJSON", "seconds": 45}, {"name": "FuzzScenarioYAML", "seconds": 45},
         {"name": "FuzzScenarioHCL", "seconds": 45}, {"name": "FuzzConfig", "seconds": 45}, {"name": "FuzzParsers", "seconds": 45},
     ],
-    "rule": ("F9 (TestF9CLIConfig): the real command line (cmd/vpandora = pandora's main) is started on generated config FILES of wrong "
+    "rule": ("F10 (TestF10GenericJSON): the generic `json` provider on empty, blank, truncated, garbage, array and scalar sources x "
+             "passes 0/1/2 x limit 0/3/7 x queue sizes, drained by two consumers and cancelled 2 ms after they stop: it must deliver or "
+             "end, never spin or ignore the cancel. F9 (TestF9CLIConfig): the real command line (cmd/vpandora = pandora's main) is started on generated config FILES of wrong "
              "overall shape (no / misspelt / scalar / null / map `pools`, pools holding scalars, nulls or lists, sections of the wrong "
              "kind, truncated text, garbage appended, YAML text under a .json name): it must end by itself without a Go panic or runtime "
              "fatal error. Eight targets. F1-F5 (uri, uripost, raw, http/json, grpc/json): ammo-file bytes = a valid ammogen file put through 1-3 byte "
